@@ -348,6 +348,48 @@ def run_case(case, ctx):
             mops += ["session", "openid S" + hx(i)]
             itoks += ["ok:%s:%s" % (",".join(sorted(ids)) if case["cache"] else "-", ",".join(sorted(cls))), tok]
 
+        # ---------------- repeated access through ONE handle (on a copy of the project) ----------------
+        # "never accepted" must not depend on it being the first attempt: after an access that raised,
+        # every later access through the same handle (statepoint again, cached_statepoint, init then
+        # statepoint) still raises or yields a state point hashing to the id.
+        probe = path + "_probe"
+        shutil.copytree(path, probe, symlinks=True)
+        try:
+            for i in sorted(cls):
+                pp = signac.Project(probe)
+                try:
+                    h = pp.open_job(id=i)
+                except Exception:  # noqa: BLE001
+                    continue
+                for what, fn in (("statepoint()", lambda: h.statepoint()), ("statepoint() again", lambda: h.statepoint()),
+                                 ("cached_statepoint", lambda: dict(h.cached_statepoint)),
+                                 ("init()", lambda: h.init() and None), ("statepoint() after init()", lambda: h.statepoint()),
+                                 ("id", lambda: None if h.id == i else {"__id__": h.id})):
+                    try:
+                        v = fn()
+                    except Exception:  # noqa: BLE001
+                        continue
+                    if v is None:
+                        continue
+                    v = plain(v)
+                    if ref_id(v) != i:
+                        oracle.append("open_job(id=%s): %s through the same handle (after earlier accesses) returned %r "
+                                      "whose hash is %s" % (i, what, v, ref_id(v)))
+                        break
+                # whatever the probes did, a directory named i never ends up VALIDATING with another state point
+                spf = os.path.join(probe, "workspace", i, SP_FILE)
+                if os.path.isfile(spf):
+                    try:
+                        with open(spf, "rb") as f:
+                            now = json.loads(f.read().decode())
+                    except Exception:  # noqa: BLE001
+                        now = None
+                    k0 = cls[i][0]
+                    if i in bad and k0 != "valid" and isinstance(now, dict) and ref_id(now) != i and now != (cls[i][1] if k0 == "valid" else None):
+                        oracle.append("accessing damaged job %s wrote the state point file %r (hash %s)" % (i, now, ref_id(now)))
+        finally:
+            shutil.rmtree(probe, ignore_errors=True)
+
         # ---------------- repair ----------------
         cache_ids = set(ids) if case["cache"] else set()
         required = set()
